@@ -220,6 +220,23 @@ def view (st : NSt) (h : Nat) : String :=
 /-- live `Node` objects: the elements of the cells that are still referenced -/
 def live (st : NSt) : Nat := st.store.cells.foldl (fun a c => if c.rc > 0 then a + c.elems.length else a) 0
 
+/-- self-check evaluated by the driver after every step: the reference count of every cell equals the number of
+handle slots plus the number of `Node` elements (in still-referenced cells) that refer to it, and a released cell
+is empty -/
+def consistent (st : NSt) : Bool :=
+  let liveCells := st.store.cells.filter fun c => c.rc > 0
+  let kidRefs := liveCells.flatMap fun c => c.elems.map fun e => e.2.1
+  let intRefs := liveCells.flatMap fun c => c.elems.map fun e => e.2.2
+  let slotRefs := st.hs.filterMap id
+  ((List.range st.store.cells.length).all fun c =>
+    match st.store.cells[c]? with
+    | some x => x.rc == kidRefs.count c + slotRefs.count c && (x.rc > 0 || x.elems.isEmpty)
+    | none => true) &&
+  ((List.range st.store.icells.length).all fun i =>
+    match st.store.icells[i]? with
+    | some x => x.rc == intRefs.count i && (x.rc > 0 || x.vals.isEmpty)
+    | none => true)
+
 def showState (st : NSt) : String :=
   " ".intercalate ((List.range NS).map (view st)) ++ s!" | L{live st}"
 
